@@ -32,11 +32,13 @@ def verify(name, wt):
     res["suite_with_change"] = out.strip().splitlines()
     res["suite_passes_with_change"] = (not any('FAILED' in l or l.startswith('error') for l in out.splitlines())) and out.count('test result: ok') >= 8
     os.rename(aside, demo)
-    rc, out = sh(f"cargo test --offline -p {pkg} --test demo_mut 2>&1 | grep -E '^test result|panicked|error' | head -5", cwd=wt)
+    extra = os.environ.get("DEMO_ARGS", "")
+    res["demo_cargo_args"] = extra
+    rc, out = sh(f"cargo test --offline -p {pkg} --test demo_mut {extra} 2>&1 | grep -E '^test result|panicked|error' | head -5", cwd=wt)
     res["demo_with_change"] = out.strip().splitlines()
     res["demo_fails_with_change"] = "FAILED" in out or "failed" in out
     sh("git apply -R mutation.patch", cwd=wt)
-    rc, out = sh(f"cargo test --offline -p {pkg} --test demo_mut 2>&1 | grep -E '^test result|panicked|error' | head -5", cwd=wt)
+    rc, out = sh(f"cargo test --offline -p {pkg} --test demo_mut {extra} 2>&1 | grep -E '^test result|panicked|error' | head -5", cwd=wt)
     res["demo_without_change"] = out.strip().splitlines()
     res["demo_passes_without_change"] = "test result: ok" in out and "FAILED" not in out
     sh("git apply mutation.patch", cwd=wt)
